@@ -86,6 +86,11 @@ func (e *Engine) rhe(n, d *Term, hint string) *Term {
 	if n.IsK() && d.IsK() {
 		return K(rheConc(n.Val, d.Val))
 	}
+	if d.IsK() && d.Val.Cmp(E18) == 0 {
+		if q, ok := DivE(n); ok {
+			return q // exactly divisible: nothing to round
+		}
+	}
 	if e.relational() {
 		key := "rhe:" + n.String() + "/" + d.String()
 		if q, ok := e.roundMemo[key]; ok {
@@ -116,6 +121,11 @@ func (e *Engine) tieRule(q, r, d *Term, key string) *Term {
 func (e *Engine) trunc(n, d *Term, hint string) *Term {
 	if n.IsK() && d.IsK() {
 		return K(new(big.Int).Quo(n.Val, d.Val))
+	}
+	if d.IsK() && d.Val.Cmp(E18) == 0 {
+		if q, ok := DivE(n); ok {
+			return q // exactly divisible: nothing to round
+		}
 	}
 	if e.relational() {
 		key := "trunc:" + n.String() + "/" + d.String()
@@ -601,6 +611,62 @@ func init() {
 		}
 		return mkNum(e.decMul(d, tmp))
 	}
+	// ApproxRoot / ApproxSqrt: Newton iteration of the library, for concrete operands only (concrete re-execution
+	// of counter-examples); a symbolic operand aborts the path (harnesses put a contract at the caller instead)
+	approxRoot := func(fr *frame, d *Term, root uint64) value {
+		e := eng(fr)
+		if !d.IsK() {
+			panic(pathAbort{"symbolic operand in LegacyDec.ApproxRoot"})
+		}
+		if root == 0 {
+			return tuple{mkNum(kE), iface{}}
+		}
+		neg := d.Val.Sign() < 0
+		x := new(big.Int).Abs(d.Val)
+		if root == 1 || x.Sign() == 0 || x.Cmp(E18) == 0 {
+			return tuple{mkNum(d), iface{}}
+		}
+		pow := func(b *big.Int, pw uint64) *big.Int {
+			if pw == 0 {
+				return new(big.Int).Set(E18)
+			}
+			dd, tmp := K(b), kE
+			for i := pw; i > 1; {
+				if i%2 != 0 {
+					tmp = e.decMul(tmp, dd)
+				}
+				i /= 2
+				dd = e.decMul(dd, dd)
+			}
+			return e.decMul(dd, tmp).Val
+		}
+		guess := new(big.Int).Set(E18)
+		for iter := 0; iter < 300; iter++ {
+			prev := pow(guess, root-1)
+			if prev.Sign() == 0 {
+				prev = big.NewInt(1)
+			}
+			delta := new(big.Int).Set(e.decQuo(K(x), K(prev)).Val)
+			delta.Sub(delta, guess)
+			delta.Quo(delta, new(big.Int).SetUint64(root))
+			guess = new(big.Int).Add(guess, delta)
+			if new(big.Int).Abs(delta).Cmp(big.NewInt(1)) <= 0 {
+				break
+			}
+		}
+		if neg {
+			guess.Neg(guess)
+		}
+		return tuple{mkNum(K(guess)), iface{}}
+	}
+	ext[D+"ApproxRoot"] = func(fr *frame, args []value) value {
+		r, ok := args[1].(uint64)
+		if !ok {
+			panic(pathAbort{"symbolic root in LegacyDec.ApproxRoot"})
+		}
+		return approxRoot(fr, cellOf(args[0]), r)
+	}
+	ext[D+"ApproxSqrt"] = func(fr *frame, args []value) value { return approxRoot(fr, cellOf(args[0]), 2) }
 	ext[D+"IsInValidRange"] = func(fr *frame, args []value) value { return true }
 
 	// generic Max/Min instantiations are interpreted from SSA (they only use < on machine numbers)
